@@ -159,12 +159,14 @@ theorem C03_table_check_args :
     `update_surrogate`: unknown name rejected, the old outputs remembered BEFORE the object is replaced / overridden, new
     outputs checked against the ids minus the old ones, overrides, old ids removed, new ids inserted, store.
     `remove_surrogate`: pop (KeyError for an unknown name) before any id is freed, then the name and every output.
+    In both forms the passed object is COPIED before the overrides are written (`v1 = copy.copy(v1)`): the caller's
+    object keeps its content — the value semantics of the model's `Sur` arguments (F-C03-12).
     These are the bodies `addSurrogate` / `SurUpd.over`, `updateSurrogate` / `SurUpd.apply`, `removeSurrogate` follow. -/
 theorem C03_table_surrogate_bodies :
     Gen.surrogateBodies =
     [
-  ("add_surrogate", ["self._check_new_ids(names=[v0, *(v1.outputs if v3 is None else v3)], ctx='surrogate')", "self._insert_id(name=v0, ctx='surrogate')", "if v2 is not None:; v1.args = v2", "if v3 is not None:; v1.outputs = v3", "if v4 is not None:; v1.stoichiometries = v4", "for v5 in v1.outputs:; self._insert_id(name=v5, ctx='surrogate')", "self._surrogates[v0] = v1", "return self"]),
-  ("update_surrogate", ["if v0 not in self._surrogates:; raise KeyError", "v5 = list(self._surrogates[v0].outputs)", "if v1 is None:; v1 = self._surrogates[v0]", "self._check_new_ids(names=v1.outputs if v3 is None else v3, ctx='surrogate', replaced=v5)", "if v2 is not None:; v1.args = v2", "if v3 is not None:; v1.outputs = v3", "if v4 is not None:; v1.stoichiometries = v4", "for v6 in v5:; self._remove_id(name=v6)", "for v6 in v1.outputs:; self._insert_id(name=v6, ctx='surrogate')", "self._surrogates[v0] = v1", "return self"]),
+  ("add_surrogate", ["self._check_new_ids(names=[v0, *(v1.outputs if v3 is None else v3)], ctx='surrogate')", "self._insert_id(name=v0, ctx='surrogate')", "v1 = copy.copy(v1)", "if v2 is not None:; v1.args = v2", "if v3 is not None:; v1.outputs = v3", "if v4 is not None:; v1.stoichiometries = v4", "for v5 in v1.outputs:; self._insert_id(name=v5, ctx='surrogate')", "self._surrogates[v0] = v1", "return self"]),
+  ("update_surrogate", ["if v0 not in self._surrogates:; raise KeyError", "v5 = list(self._surrogates[v0].outputs)", "v1 = self._surrogates[v0] if v1 is None else copy.copy(v1)", "self._check_new_ids(names=v1.outputs if v3 is None else v3, ctx='surrogate', replaced=v5)", "if v2 is not None:; v1.args = v2", "if v3 is not None:; v1.outputs = v3", "if v4 is not None:; v1.stoichiometries = v4", "for v6 in v5:; self._remove_id(name=v6)", "for v6 in v1.outputs:; self._insert_id(name=v6, ctx='surrogate')", "self._surrogates[v0] = v1", "return self"]),
   ("remove_surrogate", ["v1 = self._surrogates.pop(v0)", "self._remove_id(name=v0)", "for v2 in v1.outputs:; self._remove_id(name=v2)", "return self"])] := rfl
 
 /-- "validate first": no mutator has a rejecting statement after its first write, except the final
